@@ -2,11 +2,14 @@
  * hours, and a day count carried in tm_mday/tm_yday with tm_mon = 0, tm_year = 70): gmtime_r/timegm are mutually inverse
  * civil arithmetic on that representation, including normalisation of out-of-range hours/minutes/seconds.
  * localtime_r/mktime = GMT shifted by ONE zone offset, fixed for the run and chosen by the harness in vll_tz_offset
- * (a multiple of 900 s): no DST transition inside a bounded run - stated assumption.  Calendar months/years, %Z names
+ * (a multiple of 900 s); optionally ONE daylight-saving transition: from the instant vll_tz_dst_at (chosen by the harness,
+ * a multiple of 900 s like every transition in the tz database) the offset is vll_tz_offset + vll_tz_dst_delta.  Calendar months/years, %Z names
  * and the real tz database are outside the model. */
 #include "vll_rt.h"
 struct vtm { int32_t sec, min, hour, mday, mon, year, wday, yday, isdst; int64_t gmtoff; const char* zone; };
 int64_t vll_tz_offset;
+int64_t vll_tz_dst_at = 0x7fffffffffffffffLL, vll_tz_dst_delta;     /* default: no transition */
+static int64_t zone_off(int64_t t){ return vll_tz_offset + (t >= vll_tz_dst_at ? vll_tz_dst_delta : 0); }
 static void fill(int64_t t, struct vtm* r){
 #if defined(__CPROVER__) && defined(VLL_TIME32)
   /* queries whose instants provably stay in [0, 2^31): 32-bit division circuits (a quarter of the 64-bit ones); an
@@ -25,7 +28,7 @@ static void fill(int64_t t, struct vtm* r){
 static int64_t unfill(struct vtm* r){ return ((int64_t)r->mday - 1) * 86400 + (int64_t)r->hour * 3600 + (int64_t)r->min * 60 + (int64_t)r->sec; }
 void* gmtime_r(const int64_t* t, struct vtm* r){ fill(*t, r); r->gmtoff = 0; r->zone = "GMT"; return r; }
 int64_t timegm(struct vtm* r){ int64_t t = unfill(r); fill(t, r); return t; }
-void* localtime_r(const int64_t* t, struct vtm* r){ fill(*t + vll_tz_offset, r); r->gmtoff = vll_tz_offset; r->zone = "LCL"; return r; }
+void* localtime_r(const int64_t* t, struct vtm* r){ int64_t o = zone_off(*t); fill(*t + o, r); r->gmtoff = o; r->isdst = (*t >= vll_tz_dst_at); r->zone = "LCL"; return r; }
 int64_t mktime(struct vtm* r){ int64_t t = unfill(r) - vll_tz_offset; fill(t + vll_tz_offset, r); return t; }
 
 /* strftime for the conversions quill's StringFromTime caches or passes through: %H %M %S %I %k %l %p %s %u %A %% and literal
